@@ -29,7 +29,9 @@ SPEC = dict(
                  'valid documents: hexadecimal character references, CDATA, DOCTYPE and raw line breaks inside attribute values are not generated (the parser does not claim them); '
                  'comments inside a tag are only placed behind at least one white-space character; white space directly next to a comment inside text is not generated (its attribution is ambiguous)',
                  'parse results on documents with comments are compared after merging adjacent text items (x<!--c-->y may be one or two text items); round-trip comparison is strict',
-                 'Xml::Parser::parse(const char*, Element&) is declared but not defined in the library (link error) and therefore cannot be driven; the other three entry points are'],
+                 'Xml::Parser::parse(const char*, Element&) is declared but not defined in the library (link error) and therefore cannot be driven; the other three entry points are',
+                 'fallback build (-DVERIF_NO_PRIVATE): the toElement state class shared/unshared of the variant mode comes from the harness\'s own record of which handles were copied from one '
+                 'another; the probe of the operator= finding then relies on the sanitizer instead of reading the reference count'],
     technique='runtime monitoring: grammar/mutation/exhaustive input generation, model-tree comparison, handle histories with per-handle models, ASan/UBSan/LSan, CPU and heap budgets',
     exhaustive={Q: False, T: False},
     jobs=[
@@ -43,13 +45,13 @@ SPEC = dict(
         job('wide', 'h_xml', 'wide', cases={Q: 64, T: 960}, procs=16,
             env={'ASAN_OPTIONS': ASAN_OPTIONS + ':quarantine_size_mb=32'}),   # trees of 5 KiB blocks: the default 256 MiB quarantine only costs page faults here
     ],
-    floors={Q: dict(parses=500000, positions_checked=400000, prefix_parses=100000, mutation_parses=30000, roundtrips=8000, rt_bytes_compared=200000, rt_texts_with_leading_whitespace=1000,
+    floors={Q: dict(ops=1000000, parses=500000, positions_checked=400000, prefix_parses=100000, mutation_parses=30000, roundtrips=8000, rt_bytes_compared=200000, rt_texts_with_leading_whitespace=1000,
                     valid_documents_compared=1000, value_nodes_compared=10000, comments_next_to_text=1000, comments_inside_tags=500, documents_with_processing_instruction=300,
                     deep_parses=48, deep_roundtrips=10, max_nesting_depth=1000, variant_ops=200000, op_copy_assign=10000, op_mutate_shared_element=3000, op_assign_own_child=500,
                     op_element_copy=1000, malloc_hook_calls=1000000, wide_cases=64, wide_documents_compared=60, wide_roundtrips=48, wide_trees_built=8, reused_parser_sequences=8,
                     wide_nodes_compared=800000, wide_elements_without_content=250000, max_elements_without_content_in_one_document=12000, max_siblings_in_one_element=12000,
                     **{'set:wide_patterns': 8, 'set:error_messages': 7, 'set:rt_char_classes': 11, 'set:rt_byte_values': 255, 'set:toElement_states': 3}),
-            T: dict(parses=12000000, positions_checked=10000000, prefix_parses=3000000, mutation_parses=900000, roundtrips=200000, rt_bytes_compared=5000000, rt_texts_with_leading_whitespace=30000,
+            T: dict(ops=15000000, parses=12000000, positions_checked=10000000, prefix_parses=3000000, mutation_parses=900000, roundtrips=200000, rt_bytes_compared=5000000, rt_texts_with_leading_whitespace=30000,
                     valid_documents_compared=30000, value_nodes_compared=400000, comments_next_to_text=20000, comments_inside_tags=10000, documents_with_processing_instruction=5000,
                     deep_parses=480, deep_roundtrips=100, max_nesting_depth=1000, variant_ops=5000000, op_copy_assign=250000, op_mutate_shared_element=75000, op_assign_own_child=10000,
                     op_element_copy=25000, malloc_hook_calls=10000000, wide_cases=960, wide_documents_compared=900, wide_roundtrips=720, wide_trees_built=120, reused_parser_sequences=120,
